@@ -126,6 +126,19 @@ class Program:
                 return b
         return None
 
+    def _alias_impls(self, st, meth, self_ty, tr, inherent=False):
+        """impls written on type aliases of one generic type (`impl Emitter for &mut CucumberQueue<W>` where
+        `type CucumberQueue<W> = Queue<Source<Feature>, ..>`): pick the alias whose expansion is the callee's self type"""
+        want = T.skeleton(self.tables, self_ty)
+        out = []
+        for alias, target in self.tables.aliases.items():
+            if target != st:
+                continue
+            if T.skeleton(self.tables, alias) != want:
+                continue
+            out += [b for (t, b) in self.by_method.get((alias, meth), []) if (t is None if inherent else (tr is None or t == tr))]
+        return out
+
     def resolve(self, info):
         """Crate-local body for a canonical callee, or None."""
         meth = info['method']
@@ -133,6 +146,8 @@ class Program:
             st = T.type_name_hint(info['self_ty'])[0]
             tr = T.type_name_hint(info['trait'])[0] if info['trait'] else None
             c = [b for (t, b) in self.by_method.get((st, meth), []) if tr is None or t == tr]
+            if not c:
+                c = self._alias_impls(st, meth, info['self_ty'], tr)
             # qualified self types (`gherkin::Scenario` vs `event::Scenario<W>`): the body's signature must mention the same path
             qual = re.sub(r'<.*$', '', info['self_ty'].strip().lstrip('&').replace('mut ', '').strip())
             if '::' in qual and c:
@@ -165,6 +180,13 @@ class Program:
                 for alias, target in self.tables.aliases.items():
                     if target == segs[-2]:
                         c += [b for (t, b) in self.by_method.get((alias, meth), [])]
+                if len(c) > 1:
+                    txt = info['text']
+                    k = txt.rfind('::' + meth)
+                    if k > 0:
+                        c2 = self._alias_impls(segs[-2], meth, txt[:k], None, inherent=True)
+                        if c2:
+                            c = c2
             if len(c) == 1:
                 return c[0]
             if len(c) > 1:
@@ -300,10 +322,11 @@ class Exec:
             self.uf[key] = z3.Function(name, *sorts)
         return self.uf[key]
 
-    def explore(self, run, on_end=None):
+    def explore(self, run, on_end=None, start=None):
         """run(ex) executes ONE path and returns a result object; called once per feasible path.
-        Returns list of (kind, result_or_msg, pc, decisions)."""
-        self.queue = [[]]
+        Returns list of (kind, result_or_msg, pc, decisions).  `start`: decision prefixes to explore below
+        (a partition of the path space for parallel workers); default the whole space."""
+        self.queue = [list(p) for p in start] if start else [[]]
         out = []
         while self.queue:
             if self.stats.paths >= self.max_paths:
